@@ -1,4 +1,5 @@
 import MidnightZK.Model.C15.Batch
+import MidnightZK.Gen.C15Consts
 /-!
 Model of the off-circuit accumulator of the recursive verifier:
 
@@ -42,14 +43,16 @@ def bmUpsert (k : String) (v : V) (f : V → V) : List (String × V) → List (S
 
 end
 
-/-- `verifier/mod.rs: fn fixed_commitment_name`: `format!("{prefix}_fixed_com_{i}")`. -/
-def fixedCommitmentName (pfx : String) (i : Nat) : String := pfx ++ "_fixed_com_" ++ toString i
+/-- `verifier/mod.rs: fn fixed_commitment_name`: `format!("{prefix}_fixed_com_{i}")` (the infix is
+read from the source by `translators/c15_consts.py`). -/
+def fixedCommitmentName (pfx : String) (i : Nat) : String := pfx ++ Gen.fixedComInfix ++ toString i
 
 /-- `verifier/mod.rs: fn perm_commitment_name`: `format!("{prefix}_perm_com_{i}")`. -/
-def permCommitmentName (pfx : String) (i : Nat) : String := pfx ++ "_perm_com_" ++ toString i
+def permCommitmentName (pfx : String) (i : Nat) : String := pfx ++ Gen.permComInfix ++ toString i
 
-/-- The name of the negated generator introduced by the multi-opening argument. -/
-def minusGName : String := "-G"
+/-- The custom label `from_dual_msm` recognises as the negated generator introduced by the
+multi-opening argument (read from the source). -/
+def minusGName : String := Gen.negGLabelFromDual
 
 /-- `verifier/msm.rs: struct Msm`: `<scalars, bases> + <fixed_bases, fixed_base_scalars>`.
 `terms` pairs the vectors `scalars` and `bases` (`Msm::new` asserts equal lengths and every
